@@ -49,6 +49,11 @@ def first_wins(ctx, out, rule, body, region, header, pushes, what):
     cfg = cfg_of(body)
     n = 0
     outside = set(range(cfg.n)) - set(region) - {header}
+    if not any(bi in region for bi, t in pushes):
+        # the violation is built inside the line loop and appended after it (a per-block helper returning
+        # Option<Violation>): the construction site is then the reporting point
+        pushes = [(bi, t) for bi, t in body.calls() if bi in region and (callee_matches(t, r"validators::Violation::new$") or
+                  (ctx.facts.body(t.get("res") or "") is not None and "blockwatch::validators::Violation" in ctx.facts.body(t.get("res")).local_ty(0)))]
     for bi, t in pushes:
         if bi not in region:
             continue
